@@ -96,7 +96,9 @@ func (r *DefaultRatelimiter) Check(
 	req *dns.Msg,
 	remoteIP netip.Addr,
 ) (res RatelimitResult) {
-	if len(r.clientSubnets) > 0 && !r.clientSubnets.Contains(remoteIP) {
+	// Subnets have no zones, and an address that has one is never contained in
+	// a [netip.Prefix], so compare the address itself.
+	if len(r.clientSubnets) > 0 && !r.clientSubnets.Contains(remoteIP.WithZone("")) {
 		return RatelimitResultUseGlobal
 	}
 
